@@ -141,6 +141,59 @@ def live_net(ctx, env):
     ctx.case(("net_if", tuple(names)))
 
 
+def live_netns(ctx, env):
+    """The same comparison inside a private network namespace holding interfaces at the kernel's
+    limits: 15- and 14-character names, one-character name, uncompressible scoped IPv6 addresses."""
+    import ipaddress
+    p = subprocess.run([PY, os.path.join(os.path.dirname(os.path.dirname(__file__)), "c17_netns.py")],
+                       env=env, capture_output=True, text=True, timeout=120)
+    if p.returncode != 0 or "AddressSanitizer" in p.stderr or "runtime error:" in p.stderr:
+        ctx.disagree("netns:crash", "net_if_addrs/net_if_stats failed in the namespace: %s" % p.stderr[-600:],
+                     {"stderr": p.stderr[-1500:]})
+        return
+    d = json.loads(p.stdout.strip().splitlines()[-1])
+    if "setup_failed" in d:
+        ctx.notes.append("netns stage skipped: %s" % d["setup_failed"])
+        ctx.cov.setdefault("replay", {})["net_if-netns"] = {"skipped": d["setup_failed"]}
+        return
+    if d["before"] != d["after"]:
+        ctx.notes.append("netns stage: kernel view changed during the calls; skipped")
+        return
+    k = d["after"]
+    if sorted(d["stats"]) != sorted(k):
+        ctx.disagree("netns:names", "net_if_stats() lists %r, the kernel lists %r" % (sorted(d["stats"]), sorted(k)), d)
+    for n, kv in sorted(k.items()):
+        st = d["stats"].get(n)
+        if st and (st[1] != kv["mtu"] or st[0] != bool(kv["flags"] & 0x40) or ("up" in st[2].split(",")) != bool(kv["flags"] & 1)):
+            ctx.disagree("netns:mtu-flags", "%s: psutil %r, kernel mtu=%d flags=%#x" % (n, st, kv["mtu"], kv["flags"]), d)
+        rows = d["addrs"].get(n, [])
+        macs = [a[1] for a in rows if a[0] == 17]
+        if n != "lo" and macs != [kv["mac"]]:
+            ctx.disagree("netns:mac", "%s: psutil MAC %r, kernel %r" % (n, macs, kv["mac"]), d)
+        want6 = sorted(str(ipaddress.IPv6Address(bytes.fromhex(h))) for h in kv["v6"])
+        got6, bad = [], []
+        for a in rows:
+            if a[0] == 10:
+                host, _, scope = a[1].partition("%")
+                try:
+                    ip = ipaddress.IPv6Address(host)
+                except ValueError:
+                    bad.append(a[1]); continue
+                if (scope or ip.is_link_local) and scope != n:
+                    bad.append(a[1])
+                got6.append(str(ip))
+        if sorted(got6) != want6 or bad:
+            ctx.disagree("netns:ipv6", "%s: psutil IPv6 %r (malformed/wrong scope: %r), /proc/net/if_inet6 %r"
+                         % (n, sorted(got6), bad, want6), d)
+        got4 = [a[1] for a in rows if a[0] == 2]
+        if sorted(got4) != sorted(kv["v4"]):
+            ctx.disagree("netns:ipv4", "%s: psutil IPv4 %r, SIOCGIFADDR %r" % (n, got4, kv["v4"]), d)
+    if not any(len(n) == 15 for n in d["made"]):
+        core.vacuity("netns stage built no 15-character interface")
+    ctx.cov.setdefault("replay", {})["net_if-netns"] = {"interfaces": sorted(k), "ipv6": sum(len(v["v6"]) for v in k.values())}
+    ctx.case(("net_if-netns", tuple(sorted(k))))
+
+
 def replay(ctx, data):
     from harness.props import x17
     return x17.replay(ctx, data)
@@ -229,6 +282,7 @@ def check(ctx):
             ctx.cov["traces_validated_against_impl"] += len(cases)
             ctx.sample({"family": fam, "case": cases[len(cases) // 2], "result": res[len(cases) // 2]})
         live_net(ctx, env)
+        live_netns(ctx, env)
     finally:
         build.cleanup(snap)
     # the Python layer above the extension (mount-entry filter and root-device finder,
